@@ -279,7 +279,7 @@ def main():
     quick = ck.tier == 'quick'
     dl = ck.deadline
     CM = CFGF['COMMENTS']
-    for N in ([4, 5, 6] if quick else [6, 7, 8]):
+    def e1_phase(N):
         shards = []
         for sid in USE:
             sch = FAM[sid]
@@ -291,6 +291,8 @@ def main():
                 for ch in engine.chunks(frontier, 4):
                     shards.append((sid, flags, path, NN, ch, dl))
         engine.phase(ck, 'E1 N=%d (every viable prefix = a cut, every dead token = a corruption)' % N, shard_e1, shards, schemas=len(USE))
+    Ns = [4, 5, 6] if quick else [6, 7, 8]
+    e1_phase(Ns[0])       # cheapest and most diverse first: the deeper E1 bounds come after the cheap phases below
     import check_C02 as c02
     odd = [(k, m) for k in c02.ODD_KINDS for m in range(1 << len(c02.ODD_FLAGS)) if not (m >> 9 & 1) or k in ('int', 'float', 'bool', 'str')]
     engine.phase(ck, 'every subset of 10 option flags on every option kind (meaningful or not) x 3 context flag sets x %d texts, each also parsed twice' % len(c02.ODD_TEXTS),
@@ -316,6 +318,8 @@ def main():
                                    ('set', 'str', b's', None, None), ('set', 'str', b'sl', None, 0), ('set', 'str', b'sd', None, 1), ('oset', 'str', b'sd', None, 0)]   # NULL over a held string
     apibfs.run_bfs(ck, A2, CM, [b'', b'mt a { x = 3 } mt b { } m { } pl = {q}'], ops, 2 if quick else 3, hygiene=True,
                    setup_lines=['cb_quiet 1', 'addpath A ' + enc(b'/verif/build'), 'addpath A ' + enc(b'/nonexistent')], label='api+hygiene')
+    for N_ in Ns[1:]:
+        e1_phase(N_)
     # reduced alphabet, deeper: repeated titles (instances replaced in place), re-opened sections, calls - with a search path set
     for N in ([8, 10] if quick else [10, 12]):
         shards = []
